@@ -42,6 +42,10 @@ def _numeric_sink(prog, use):
     p = use._parent
     if isinstance(p, ast.keyword) and p.arg in ("width", "line_length", "maxlen", "n") and p.value is use:
         return "keyword %s=" % p.arg
+    if isinstance(p, ast.Dict):
+        for k, v in zip(p.keys, p.values):
+            if v is use and isinstance(k, ast.Constant) and k.value in ("width", "line_length", "maxlen"):
+                return "keyword %s= (through an options dict)" % k.value
     if isinstance(p, ast.Compare):
         ops = p.ops
         if any(isinstance(o, (ast.Lt, ast.LtE, ast.Gt, ast.GtE)) for o in ops):
